@@ -213,13 +213,14 @@ type Violation struct {
 
 // Replay is what a replay file holds.
 type Replay struct {
-	Property string      `json:"property"`
-	Mode     string      `json:"mode"`            // plan | cross | race
-	Plans    []*Plan     `json:"plans"`           // executed in order in one fresh node
-	Alone    *Plan       `json:"alone,omitempty"` // cross: executed alone in another fresh node and compared
-	Expected *Violation  `json:"expected"`
-	Note     string      `json:"note,omitempty"`
-	Race     *RaceReplay `json:"race,omitempty"`
+	Property        string      `json:"property"`
+	Mode            string      `json:"mode"`                      // plan | cross | race
+	Plans           []*Plan     `json:"plans"`                     // executed in order in one fresh node
+	Alone           *Plan       `json:"alone,omitempty"`           // cross: executed alone in another fresh node and compared
+	AloneUnobserved bool        `json:"aloneUnobserved,omitempty"` // cross: that other node runs without the forwarding proxies
+	Expected        *Violation  `json:"expected"`
+	Note            string      `json:"note,omitempty"`
+	Race            *RaceReplay `json:"race,omitempty"`
 }
 
 type RaceReplay struct {
